@@ -172,6 +172,24 @@ func c16OverwriteCheck(c c16Overwrite) error {
 		if err := compareWalkers(pj2, allWalkers, mc); err != nil {
 			return fmt.Errorf("no-copy mode (input intact), after unrelated calls on other objects: %v", err)
 		}
+		// a call without any option copies strings (the documented default), whatever options other calls in the
+		// process have used: its result survives the recycling of its input
+		in5 := append([]byte(nil), c.Doc...)
+		var pj5 *simdjson.ParsedJson
+		if c.ND {
+			pj5, err = simdjson.ParseND(in5, nil)
+		} else {
+			pj5, err = simdjson.Parse(in5, nil)
+		}
+		if err != nil {
+			return fmt.Errorf("call without options rejects the document: %v", err)
+		}
+		for i := range in5 {
+			in5[i] = '%'
+		}
+		if err := compareWalkers(pj5, allWalkers, mc); err != nil {
+			return fmt.Errorf("call without options (default: copy strings) after other calls had switched copying off; input recycled: %v", err)
+		}
 	}
 	// the same with a ParsedJson that served another no-copy parse before, read through accessor destinations
 	// (Iter.Object(dst), Iter.Array(dst)) that were used on that earlier document
